@@ -78,7 +78,9 @@ def _load(name):
             (('h2a', 'h2b', 'g2a', 'g2b') if name == 'qshift_b_bp' else ())
         return dict(zip(keys, pc.qshift(name)))
     disk = _disk(name)
-    keys = tuple(sorted(disk))
+    keys = tuple(k for k in sorted(disk) if not k.startswith('__'))
+    if not hasattr(pc, '_load_from_file'):
+        return {k: disk[k] for k in keys}
     return dict(zip(keys, pc._load_from_file(name, keys)))
 
 
@@ -238,8 +240,9 @@ def _history(case, r):
                 calls_since[n] += 1
             r.label('module_call')
         elif kind == 'drop_cache':
-            pc.COEFF_CACHE.clear()
-            r.label('cache_dropped')
+            if isinstance(getattr(pc, 'COEFF_CACHE', None), dict):
+                pc.COEFF_CACHE.clear()
+                r.label('cache_dropped')
         # invariant after every step
         for name in loaded:
             if not _same_as_disk(name, r, 'after step %d (%s)' % (step, op)):
